@@ -17,9 +17,9 @@ def plan(tier, seed):
         for v in vs:
             for k in range(nt):
                 units.append(dict(hfile='rename.py', fname='c14_rename', args=(v, k, 1 + (k + di) % 2)))
-                units.append(dict(hfile='rename.py', fname='c14_args', args=(v, k, ['reverse', 'prefix', 'tail', 'rotate', 'pop-insert', 'assign-new', 'reassign-same'][(k + di) % 7])))
+                units.append(dict(hfile='rename.py', fname='c14_args', args=(v, k, ['reverse', 'prefix', 'tail', 'rotate', 'pop-insert', 'assign-new', 'reassign-same', 'swap-items', 'del-item', 'empty-slice'][(k + di) % 10])))
                 if not q:
-                    units.append(dict(hfile='rename.py', fname='c14_args', args=(v, k, ['reverse', 'prefix', 'tail', 'rotate', 'pop-insert', 'assign-new', 'reassign-same'][(k + di + 3) % 7])))
+                    units.append(dict(hfile='rename.py', fname='c14_args', args=(v, k, ['reverse', 'prefix', 'tail', 'rotate', 'pop-insert', 'assign-new', 'reassign-same', 'swap-items', 'del-item', 'empty-slice'][(k + di + 3) % 10])))
         for v in cover.variants(d, seed * 7919 + di, cap=2)[:1]:
             for k in range(nt):
                 units.append(dict(hfile='rename.py', fname='c14_string', args=(v, k, 1 + (k + di) % 2)))
